@@ -158,7 +158,7 @@ def match_known(o: Obligation, known: list[dict], pid: str) -> dict | None:
             continue
         if k.get("property") != pid and pid not in k.get("also", []):
             continue
-        if k.get("rule") != o.rule:
+        if k.get("rule") != o.rule and o.rule not in k.get("rules", []):
             continue
         if k.get("module") and k["module"] != o.module:
             continue
